@@ -59,7 +59,8 @@ def code_lines(text):
     while i < len(lines):
         l = lines[i]
         s = l.strip()
-        if re.match(r"#\[cfg\((test|lexgen_verif)\)\]", s) or s == "#[test]" or "cfg!(lexgen_verif)" in s:
+        if re.match(r"#\[cfg\((test|lexgen_verif)\)\]", s) or s == "#[test]" or "cfg!(lexgen_verif)" in s \
+                or re.match(r"impl.*\bDisplay for\b", s):          # debug printing is not part of any property
             pending_skip = True
         opens, closes = l.count("{"), l.count("}")
         if pending_skip and not in_skip:
